@@ -16,6 +16,15 @@ Theorem upstream_sum_spec : forall ds data nodata, (forall i, nth i data 0 <> no
   nth j (upstream_sum ds data nodata) 0 = zsum (map (fun c => nth c data 0) (ups ds j)).
 Proof. exact OpsSpec.upstream_sum_spec. Qed.
 Print Assumptions upstream_sum_spec.
+(* ... and that hypothesis cannot be dropped, not even for cells the missing value has nothing to do with: REFUTED on the chain
+   2 -> 1 -> 0 (pit) with the pit's value missing (known finding F14: the kernel writes nodata into the upstream cell of a pair
+   with a missing value and later adds to it; the model is the kernel statement by statement, gen_upstream_sum_eq) *)
+From PF Require Import UpSumRefuted.
+Theorem upstream_sum_nodata_refuted : exists (ds : list nat) (data : list Z) (nodata : Z) (j : nat),
+  (j < size ds)%nat /\ nth j data 0 <> nodata /\ (forall c, In c (ups ds j) -> nth c data 0 <> nodata) /\
+  nth j (upstream_sum ds data nodata) 0 <> zsum (map (fun c => nth c data 0) (ups ds j)).
+Proof. exact UpSumRefuted.upstream_sum_nodata_refuted. Qed.
+Print Assumptions upstream_sum_nodata_refuted.
 
 (* direction 'up': the value of the nearest valid cell downstream (first_on_path; shared with C05) *)
 Theorem fill_up_spec : forall ds nodata data sq, length data = size ds -> topo ds sq ->
